@@ -11,7 +11,7 @@ use std::collections::BTreeSet;
 use crate::{node::Node, Error, Marker, Result};
 use ant_evm::payment_vault::verify_data_payment;
 use ant_evm::{AttoTokens, ProofOfPayment};
-use ant_networking::NetworkError;
+use ant_networking::{NetworkError, MAX_PACKET_SIZE};
 use ant_protocol::storage::Transaction;
 use ant_protocol::{
     storage::{
@@ -27,6 +27,7 @@ use xor_name::XorName;
 impl Node {
     /// Validate a record and its payment, and store the record to the RecordStore
     pub(crate) async fn validate_and_store_record(&self, record: Record) -> Result<()> {
+        Self::refuse_oversized_record(&record)?;
         let record_header = RecordHeader::from_record(&record)?;
 
         match record_header.kind {
@@ -336,6 +337,7 @@ impl Node {
     /// Store a pre-validated, and already paid record to the RecordStore
     pub(crate) async fn store_replicated_in_record(&self, record: Record) -> Result<()> {
         debug!("Storing record which was replicated to us {:?}", record.key);
+        Self::refuse_oversized_record(&record)?;
         let record_header = RecordHeader::from_record(&record)?;
         match record_header.kind {
             // A separate flow handles payment for chunks and registers
@@ -393,6 +395,24 @@ impl Node {
                     .await
             }
         }
+    }
+
+    /// Same bound as `RecordStore::put` (`max_value_bytes` = `MAX_PACKET_SIZE`) applies on the kad path.
+    /// A record fetched for replication arrives through the request-response codec, whose own limit on a
+    /// response is larger, and `put_verified` does not look at the size.
+    fn refuse_oversized_record(record: &Record) -> Result<()> {
+        if record.value.len() >= MAX_PACKET_SIZE {
+            warn!(
+                "Record {:?} is too large ({} bytes), ignoring it.",
+                PrettyPrintRecordKey::from(&record.key),
+                record.value.len()
+            );
+            return Err(Error::InvalidRequest(format!(
+                "Record too large: {} bytes",
+                record.value.len()
+            )));
+        }
+        Ok(())
     }
 
     /// Check key is valid compared to the network name, and if we already have this data or not.
